@@ -113,6 +113,13 @@ func IsRetryableError(err error) bool {
 
 	errStr := strings.ToLower(err.Error())
 
+	// The transports quote the peer's response body after ", body: ". It is the peer's text, not a
+	// description of the failure, so it takes no part in the classification (a non-transient status must
+	// not become retryable because the body happens to contain "503 " or "connection reset").
+	if i := strings.Index(errStr, ", body: "); i >= 0 {
+		errStr = errStr[:i]
+	}
+
 	// Network connection errors - use precise matching to avoid false positives
 	if strings.Contains(errStr, "connection refused") ||
 		strings.Contains(errStr, "connection reset") ||
